@@ -7,6 +7,7 @@
 //       (head = first op) and handle_operations(head) is called once.
 //       op:  p<x>  push(const T&) of x         m<x>  push(T&&) of x
 //            t<x>  push(const T&) of an element whose copy constructor throws        o  try_pop
+//            x     try_pop into an element whose (move) assignment throws
 //       res: S / F for pushes, S:<v> / F for pops, W if the status was never set
 // Element type: int priority + a flag that makes copying throw; moves are noexcept (so vector growth moves).
 #include <oneapi/tbb/concurrent_priority_queue.h>
@@ -20,16 +21,22 @@
 #include <iostream>
 
 struct CopyBomb {};
+struct AssignBomb {};
 struct Elem {
-    long v; bool bomb;
+    long v; bool bomb; bool abomb = false;       // abomb: assigning INTO this object throws (op `x`)
     Elem(long v_ = -1, bool b = false) : v(v_), bomb(b) {}
     Elem(const Elem& o) : v(o.v), bomb(o.bomb) { if (o.bomb) throw CopyBomb(); }
     Elem(Elem&& o) noexcept : v(o.v), bomb(o.bomb) {}
-    Elem& operator=(const Elem& o) { if (o.bomb) throw CopyBomb(); v = o.v; bomb = o.bomb; return *this; }
-    Elem& operator=(Elem&& o) noexcept { v = o.v; bomb = o.bomb; return *this; }
+    Elem& operator=(const Elem& o) { if (abomb) throw AssignBomb(); if (o.bomb) throw CopyBomb(); v = o.v; bomb = o.bomb; return *this; }
+    Elem& operator=(Elem&& o) { if (abomb) throw AssignBomb(); v = o.v; bomb = o.bomb; return *this; }
     friend bool operator<(const Elem& a, const Elem& b) { return a.v < b.v; }
 };
 using Q = tbb::concurrent_priority_queue<Elem>;
+
+// a repaired tree may hand the exception of a pop's element assignment to the pop's caller through the operation
+// (member `eptr`); the pinned tree has no such member
+template <class Op> static auto op_has_exception(Op& op, int) -> decltype((bool)op.eptr) { return (bool)op.eptr; }
+template <class Op> static bool op_has_exception(Op&, long) { return false; }
 
 static bool parse_nat(const std::string& s, long& out) {
     if (s.empty() || s.size() > 18) return false;
@@ -81,8 +88,9 @@ int main() {
                 if (w == ";") { batches.emplace_back(); continue; }
                 auto r = std::make_unique<OpRec>();
                 r->kind = w[0];
-                if (w == "o") {
+                if (w == "o" || w == "x") {
                     r->outv = Elem(-7, false);
+                    r->outv.abomb = (w == "x");
                     r->op.reset(new Q::cpq_operation(r->outv, Q::POP_OP));
                 } else if ((w[0] == 'p' || w[0] == 'm' || w[0] == 't') && w.size() > 1) {
                     long x; ok = parse_nat(w.substr(1), x);
@@ -104,11 +112,12 @@ int main() {
                     for (auto& r : ops) {
                         uintptr_t st = r->op->status.load();
                         std::string s = st == 0 ? "W" : st == Q::SUCCEEDED ? "S" : st == Q::FAILED ? "F" : "?" + std::to_string(st);
-                        if (r->kind == 'o' && st == Q::SUCCEEDED) s += ":" + std::to_string(r->outv.v);
+                        if ((r->kind == 'o' || r->kind == 'x') && st == Q::SUCCEEDED) s += ":" + std::to_string(r->outv.v);
+                        if (r->kind == 'x' && st == Q::FAILED && op_has_exception(*r->op, 0)) s = "E";
                         out += s + " ";
                     }
                     out += "| " + show(q);
-                    if (exc) out += " EXCEPTION-ESCAPED";
+                    if (exc) { out += " EXCEPTION-ESCAPED"; break; }     // handle_operations was left by an exception
                 }
             }
         }
